@@ -502,6 +502,50 @@ func (f *F) Closure(rule string, i int) *F {
 			descSubst = saved
 			return &F{q: f.q, fn: sc, Name: f.q.p.FuncName(sc), evs: evs}
 		}
+		// the statement that builds the closure was moved into a private helper of the package
+		// (`s.timer = time.AfterFunc(d, func() {…})` -> `s.armTimer(d)`): its closures, read
+		// with the helper's parameters in the caller's terms
+		{
+			k := i - len(f.fn.AnonFuncs) - len(started)
+			var found *F
+			EachInstr(f.fn, func(in ssa.Instruction) {
+				if found != nil {
+					return
+				}
+				c := CallOf(in)
+				if c == nil {
+					return
+				}
+				if _, isGo := in.(*ssa.Go); isGo {
+					return
+				}
+				sc := c.StaticCallee()
+				if sc == nil || sc.Blocks == nil || sc.Pkg != f.fn.Pkg || sc.Parent() != nil || !lowerName(sc.Name()) || !f.q.p.inlinable(sc) {
+					return
+				}
+				if k < len(sc.AnonFuncs) {
+					saved := descSubst
+					ns := map[*ssa.Parameter]string{}
+					for kk, v := range saved {
+						ns[kk] = v
+					}
+					for j, par := range sc.Params {
+						if j < len(c.Args) {
+							ns[par] = Desc(c.Args[j])
+						}
+					}
+					descSubst = ns
+					cf := sc.AnonFuncs[k]
+					found = &F{q: f.q, fn: cf, Name: f.q.p.FuncName(cf), evs: f.q.p.Events(cf)}
+					descSubst = saved
+				} else {
+					k -= len(sc.AnonFuncs)
+				}
+			})
+			if found != nil {
+				return found
+			}
+		}
 		f.q.r.Bad(rule, "anchor:"+f.Name+fmt.Sprintf("$%d", i+1), "-", "ANCHOR-MISSING: closure not found")
 		return &F{q: f.q, Name: f.Name + "$?"}
 	}
@@ -1555,4 +1599,15 @@ func everyPath(in ssa.Instruction) bool {
 		return false
 	}
 	return !escapes(fn.Blocks[0])
+}
+
+// predBlock: the block whose path condition decides when the event happens, for rules that
+// compare that condition with a specification.  For an event found in a private helper that
+// performs it unconditionally (in the helper's entry block), it is the block of the call in
+// the anchor function: the helper adds no condition of its own.
+func predBlock(e *Ev) *ssa.BasicBlock {
+	if e.Site != nil && e.In.Block() == e.In.Parent().Blocks[0] {
+		return e.Site.Block()
+	}
+	return e.In.Block()
 }
